@@ -22,6 +22,7 @@ import NR.Mix
 import NR.Front
 import NR.LatestEst
 import NR.Init
+import NR.Closest
 namespace NR.Driver
 open NR
 
@@ -171,6 +172,21 @@ def stepGenD (ws : List String) : String :=
       let cs := Gen.genDis (fun a b => ps.contains (a, b)) src tgt
       if cs.isEmpty then "gend -"
       else "gend " ++ ";".intercalate (cs.map (fun c => ".".intercalate (c.map toString)))
+    | _, _, _ => "bad-op"
+  | _ => "bad-op"
+
+/-- `closest <n> <self> <key:index,…>`: NearestStops as repaired (NR.Closest.nearest); keys = ranks of the squared distances. -/
+def stepClosest (ws : List String) : String :=
+  match ws with
+  | [n, self, cs] =>
+    let pairs : Option (List (Nat × Nat)) :=
+      allSome ((parseCsv cs).map (fun x => match x.splitOn ":" with
+        | [a, b] => (match a.toNat?, b.toNat? with
+          | some a, some b => some (a, b)
+          | _, _ => none)
+        | _ => none))
+    match n.toNat?, self.toNat?, pairs with
+    | some n, some self, some ps => "closest " ++ Closest.render (Closest.nearest n self ps)
     | _, _, _ => "bad-op"
   | _ => "bad-op"
 
@@ -570,6 +586,7 @@ def step (st : State) (line : String) : State × String :=
   | "coll" :: ws => let (c, o) := stepColl st.coll ws; ({ st with coll := c }, o)
   | "gen" :: ws => (st, stepGen ws)
   | "gend" :: ws => (st, stepGenD ws)
+  | "closest" :: ws => (st, stepClosest ws)
   | "par" :: ws => (st, stepPar ws)
   | "fmt" :: ws => (st, stepFmt ws)
   | "td" :: ws => let (t, o) := stepTd st.td ws; ({ st with td := t }, o)
